@@ -51,3 +51,65 @@ Fixpoint walks (c : cfg) (chk : st -> bool) (n : nat) (seeds : list N) : option 
   | [] => None
   | x :: r => match walk c chk n x init with Some tr => Some (x, tr) | None => walks c chk n r end
   end.
+
+(* ---- Close returns: the internal steps alone bring every Close call to its end (a test by
+   evaluation on given states, not a theorem: see DESIGN.md) ---- *)
+(* the labels which are not the environment starting new work: internal steps of the goroutines,
+   the failure of a dial in progress, the expiry of a timer, the return of a user handler *)
+Definition helpers (s : st) : list lab :=
+  let ks := seq 0 (length (cl s)) in
+  let gsq := seq 0 (length (trs s)) in
+  let is := seq 0 (length (gs s)) in
+  flat_map (fun k => [LClose k true; LClose k false]) ks
+  ++ [LRt true; LRt false; LRtCtx; LRtFired; LDial false; LLc; LLcExit; LLr; LLrExit]
+  ++ flat_map (fun g => [LRp g; LWpCwp g; LWpCconn g true; LWpClosed g; LWpLock g; LWpRel g true; LWpRel g false; LHr g]) gsq
+  ++ flat_map (fun i => [LHandlerRet i false; LG i GA; LG i GAClosed; LG i GAConn; LG i (GAHand true)]) is.
+
+Definition all_returned (s : st) : bool := forallb (fun p => match p with CRet _ => true | _ => false end) (cl s).
+
+Fixpoint settle (c : cfg) (fuel : nat) (s : st) : st :=
+  match fuel with
+  | O => s
+  | S n =>
+      if all_returned s && (if tore s then final s else true) then s else
+      match filter (fun l => match step c s l with Some _ => true | None => false end) (helpers s) with
+      | [] => s
+      | l :: _ => match step c s l with Some s' => settle c n s' | None => s end
+      end
+  end.
+
+(* from the state a schedule leads to, with at least one Close started: do the helpers finish it? *)
+Definition closes_ok (c : cfg) (s : st) : bool :=
+  let s' := settle c 600 (match cl s with [] => s <| cl := [C0] |> | _ => s end) in
+  all_returned s' && tore s' && final s' && negb (crashed s').
+
+Fixpoint walk_to (c : cfg) (n : nat) (x : N) (s : st) : st :=
+  match n with
+  | O => s
+  | S m =>
+      let en := enabled c s in
+      match en with
+      | [] => s
+      | _ =>
+          let x1 := next x in
+          let l := nth (N.to_nat ((x1 / 65536) mod N.of_nat (length en))) en LNewClose in
+          if damp s l (x1 / 4294967296) then
+            match step c s l with Some s' => walk_to c m x1 s' | None => s end
+          else walk_to c m x1 s
+      end
+  end.
+
+(* seeds on which Close does not come to its end from the state reached after n random steps *)
+Definition close_stuck (c : cfg) (n : nat) (seeds : list N) : list N :=
+  filter (fun x => negb (closes_ok c (walk_to c n x init))) seeds.
+
+(* ---- the scenarios of the harness as histories: the environment's part, then the helpers ---- *)
+Inductive case := CScen (c : cfg) (prefix : list lab) (impl_ok : bool).
+Definition ok (x : case) : bool :=
+  match x with CScen c p impl_ok => Bool.eqb (closes_ok c (exec c init p)) impl_ok end.
+Fixpoint mism (i : N) (cs : list case) : list N :=
+  match cs with [] => [] | x :: r => if ok x then mism (i + 1)%N r else i :: mism (i + 1)%N r end.
+Definition mismatches (cs : list case) : list N := mism 0%N cs.
+
+(* connect: the loop dials, records the transport, reports Ready, the reader is attached *)
+Definition p_connect : list lab := [LLc; LRt true; LRt true; LDial true; LRt true; LRt true; LLc; LLr; LLr; LLr; LLr].
